@@ -91,7 +91,70 @@ def oracle(case: dict) -> Outcome:
     return out
 
 
+# --------------------------------------------------------------------------- the harness's chunk rule vs torch's own dim-0 sharding
+def strategy_chunks():
+    from hypothesis import strategies as st
+
+    return st.fixed_dictionaries({"S": st.integers(1, 4), "R": st.sampled_from([1, 1, 2]), "shapes": st.lists(st.lists(st.integers(1, 9), min_size=1, max_size=3), min_size=1, max_size=4),
+                                  "seed": st.integers(0, 1000)})
+
+
+def oracle_chunks(case: dict) -> Outcome:
+    """distribute_tensor(full, mesh, [Shard(0)]) / [Replicate(), Shard(0)] must hand every rank exactly the rows the harness model gives it."""
+    import torch
+    from torch.distributed.device_mesh import init_device_mesh
+    from torch.distributed.tensor import Replicate, Shard, distribute_tensor
+
+    from .. import sim
+
+    out = Outcome()
+    S, R = case["S"], case["R"]
+    if R * S > 4:
+        R = 1
+    shapes = case["shapes"]
+    pb = dc.Problem({"flavour": "hybrid_shard" if R > 1 else "fully_shard", "R": R, "S": S, "G": -1, "cfg": dict(c06_base(), pdtype="f32"), "shapes": shapes, "pseed": case["seed"], "steps": []})
+
+    def fn(rank: int, world: Any) -> list:
+        mesh = init_device_mesh("cpu", (R, S), mesh_dim_names=("replicate", "shard")) if R > 1 else init_device_mesh("cpu", (S,))
+        pl = [Replicate(), Shard(0)] if R > 1 else [Shard(0)]
+        s = mesh.get_local_rank(1) if R > 1 else mesh.get_local_rank(0)
+        res = []
+        for i, full in enumerate(pb.full):
+            # distribute_tensor scatters from rank 0 (a collective on the threaded backend)
+            loc = distribute_tensor(full.clone(), mesh, pl).to_local()
+            mine = pb.local_of(full, i, s)
+            res.append((tuple(loc.shape), tuple(mine.shape), bool(loc.shape == mine.shape and torch.equal(loc, mine))))
+        return res
+
+    results, errors, alive, world = sim.run_world(R * S, fn)
+    real = {r: e for r, e in errors.items() if e != "abort"}
+    if real:
+        raise RuntimeError(f"chunk-rule world failed: {list(real.values())[0][-600:]}")
+    for r, res in enumerate(results):
+        for i, (a, b, ok) in enumerate(res or []):
+            if not ok:
+                # this is a defect of the harness model, not of the code under test: report as harness error
+                raise AssertionError(f"harness chunk rule differs from distribute_tensor: rank {r} param {i} torch {a} harness {b}")
+    out.nontrivial = S >= 2 and any(sh[0] % S or sh[0] < S for sh in shapes)
+    out.classes.append(f"S{S}R{R}")
+    return out
+
+
+def c06_base() -> dict:
+    from . import c06
+
+    return dict(c06._BASE_CFG)
+
+
+PROBES = {
+    "F5": ("worlds", {"flavour": "hybrid_shard", "R": 2, "S": 1, "G": -1, "comm_params": False, "comm_dtype": "default", "cfg": c06_base(),
+                      "shapes": [[4, 4], [4, 4]], "pseed": 1,
+                      "steps": [{"gseed": 3, "gkind": "gauss", "gscale": 1.0, "mask": [True, True]}, {"gseed": 3, "gkind": "gauss", "gscale": 1.0, "mask": [True, False]}],
+                      "repair": False, "probe": "F5"}),
+}
+
 STREAMS = {
     "worlds": Stream("worlds", oracle=oracle, strategy=strategy, quick=480, thorough=0, shards_quick=16, shards_thorough=16),
     "worlds_large": Stream("worlds_large", oracle=oracle, strategy=strategy_thorough, quick=0, thorough=5000, shards_quick=16, shards_thorough=16),
+    "chunk_rule": Stream("chunk_rule", oracle=oracle_chunks, strategy=strategy_chunks, quick=48, thorough=1000, shards_quick=8, shards_thorough=16),
 }
